@@ -633,6 +633,7 @@ func c08R2(ic *IC, r *Report) {
 	}
 	c08GoArgs(ic, r)
 	freshFrameSlots(ic, r, "R08.2")
+	cloneCopiesData(ic, r, "R08.2")
 	// newFrame and clone must allocate: every return value is a fresh &frame{} composite.
 	for _, name := range []string{"newFrame"} {
 		f := ic.ssaFunc(name)
